@@ -21,9 +21,9 @@ func init() {
 			"distinct_nontrivial counts distinct (message shape, permutation) pairs of conflict-free messages in which at least one trip or vehicle is both described and referenced",
 		Cases: func(tier string) int {
 			if tier == "thorough" {
-				return 12000
+				return 30000
 			}
-			return 1200
+			return 3000
 		},
 		Run: runC07,
 		Assumptions: []string{
